@@ -179,15 +179,18 @@ def obligations(tier: str) -> List[dict]:
                             'bound': f'chain of {depth + 1} nodes + {nt} '
                                      'trailing', 'need_marks': ['deep']})
     else:
+        tree('default', 2, 600)
+        tree('amr', 2, 600)
         for m in ('default', 'amr'):
             for ops in OPS2:
                 tree(m, 3, 1200, ops)
-                for op2 in (0, 1, 2):
-                    if ops == (0, 0) and op2 == 2:
-                        continue
-                    tree(m, 4, 3000, ops + (op2,))
+        for ops in OPS2:
+            for op2 in (0, 1, 2):
+                if ops == (0, 0) and op2 == 2:
+                    continue
+                tree('default', 4, 1800, ops + (op2,))
         for m in ('default', 'amr'):
-            for depth, nt in ((3, 2), (4, 1), (4, 2)):
+            for depth, nt in ((2, 2), (3, 1), (3, 2), (4, 1)):
                 for lvl in range(depth):
                     obs.append({'name': f'E2 deep diagnostics model={m} '
                                         f'depth={depth} trailing={nt} '
@@ -195,12 +198,14 @@ def obligations(tier: str) -> List[dict]:
                                 'fn': 'h_deep_diagnostics',
                                 'fixed': {'model': m, 'depth': depth,
                                           'ntrail': nt, 'level': lvl},
-                                'timeout': 3000,
+                                'timeout': 1800,
                                 'bound': f'chain of {depth + 1} nodes',
                                 'need_marks': ['deep']})
-        ml(2, 2, False, 1200)
-        ml(2, 2, True, 1200)
-        ml(3, 2, True, 3000)
+        ml(1, 1, False, 300)
+        ml(2, 1, False, 600)
+        ml(2, 1, True, 600)
+        ml(2, 2, False, 1800)
+        ml(2, 2, True, 1800)
     return obs
 
 
